@@ -320,6 +320,8 @@ def sig(o):
         return ("d", tuple((sig(k), sig(x)) for k, x in o.items()))
     if isinstance(o, BaseException):
         return ("exc", tp.__name__)
+    if isinstance(o, type):
+        return ("class", o.__name__)
     custom = getattr(o, "__vsig__", None)
     if custom is not None:
         return custom()
